@@ -166,17 +166,31 @@ fn parse_cfg(tok: &str, base: &str) -> Option<Vec<(String, String)>> {
         .collect()
 }
 
-fn make_loader(cfg: &[(String, String)]) -> Result<LocalLoader, &'static str> {
+/// half of the requests build their loader with `new(first pair)` + `add(..)` for the others (`Default` when
+/// there is none): same checks, same order, same first error as `new(all)`
+fn via_add(iri: &str) -> bool {
+    iri.bytes().fold(0u32, |a, b| a.wrapping_mul(31).wrapping_add(b as u32)) % 2 == 1
+}
+
+fn make_loader(cfg: &[(String, String)], iri: &str) -> Result<LocalLoader, &'static str> {
     use sophia_resource::loader::LocalLoaderError as E;
-    let caches = cfg
-        .iter()
-        .map(|(ns, d)| (Iri::new_unchecked(MownStr::from(ns.clone())), PathBuf::from(d)))
-        .collect();
-    LocalLoader::new(caches).map_err(|e| match e {
+    let err = |e| match e {
         E::IriMustEndWithSlash(_) => "slash",
         E::PathMustBeAbsolute(_) => "abs",
         E::PathMustBeDirectory(_) => "dir",
-    })
+    };
+    let mut caches: Vec<(Iri<MownStr<'static>>, PathBuf)> =
+        cfg.iter().map(|(ns, d)| (Iri::new_unchecked(MownStr::from(ns.clone())), PathBuf::from(d))).collect();
+    if via_add(iri) {
+        let rest = if caches.is_empty() { vec![] } else { caches.split_off(1) };
+        let mut l = if caches.is_empty() { LocalLoader::default() } else { LocalLoader::new(caches).map_err(err)? };
+        for (ns, d) in rest {
+            l.add(ns, d).map_err(err)?;
+        }
+        Ok(l)
+    } else {
+        LocalLoader::new(caches).map_err(err)
+    }
 }
 
 fn io_kind(k: ErrorKind) -> String {
@@ -299,7 +313,8 @@ type Setup = (std::rc::Rc<Layout>, Vec<(String, String)>, String);
 fn setup(c: &str, f: &str, i: &str) -> Result<Setup, String> {
     let lay = match layout_for(f) {
         Ok(l) => l,
-        Err(e) => return Err(if e == "bad-hex" || e == "bad-op" { e } else { format!("sandbox-error={}", hex(&e)) }),
+        // a host file system that cannot hold the sandbox must not pass silently: `new` disagrees with the model
+        Err(e) => return Err(if e == "bad-hex" || e == "bad-op" { e } else { format!("new=sandbox-error sandbox-error={}", hex(&e)) }),
     };
     let (Some(cfg), Some(iri)) = (parse_cfg(c, &lay.base), unhex(i)) else {
         return Err("bad-hex".into());
@@ -313,7 +328,7 @@ fn exec_g(c: &str, f: &str, i: &str, symlinks: Option<&str>) -> String {
         Ok(x) => x,
         Err(r) => return r,
     };
-    let loader = match make_loader(&cfg) {
+    let loader = match make_loader(&cfg, &iri) {
         Ok(l) => l,
         Err(k) => return format!("new={k}"),
     };
@@ -357,7 +372,7 @@ fn exec_l(c: &str, f: &str, i: &str, p: &str, mode: &str) -> String {
         Err(r) => return r,
     };
     let Some(pred) = unhex(p) else { return "bad-hex".into() };
-    let loader = match make_loader(&cfg) {
+    let loader = match make_loader(&cfg, &iri) {
         Ok(l) => l.arced(),
         Err(k) => return format!("new={k}"),
     };
@@ -430,9 +445,7 @@ fn exec_l(c: &str, f: &str, i: &str, p: &str, mode: &str) -> String {
     };
     // following a link = calling `get` with the IRI taken from the data
     let linkdiff = res != "samedoc" && res != "notabsolute" && direct.res != "dbgpanic" && read != direct.read;
-    if linkdiff {
-        fail.push_str(&format!(" FAIL.link_differs={}", direct.read));
-    }
+    // (not demanded by the property: reported as a plain field, the model says `linkdiff=0`)
     let mut r = format!(
         "new=ok doc=ok link={} read={} escaped={} linkdiff={} dres={}",
         hex(&link),
@@ -469,7 +482,7 @@ fn exec_j(c: &str, f: &str, i: &str) -> String {
         Ok(x) => x,
         Err(r) => return r,
     };
-    let loader = match make_loader(&cfg) {
+    let loader = match make_loader(&cfg, &iri) {
         Ok(l) => l.arced(),
         Err(k) => return format!("new={k}"),
     };
@@ -830,6 +843,9 @@ fn emit_g(ctx: &mut GenCtx, cfg: &[(String, String)], fs: &str, iri: &str, tag: 
     if iri.contains("//") && iri.matches("//").count() > 1 {
         ctx.stats.bump("iri.empty_segment");
     }
+    if via_add(iri) {
+        ctx.stats.bump(if cfg.len() > 1 { "cfg.built_with_add" } else { "cfg.built_with_new_or_default" });
+    }
     ctx.emit(&format!("g {} {} {}", cfg_tok(cfg), fs, hex(iri)));
 }
 
@@ -1033,6 +1049,8 @@ pub fn generate(ctx: &mut GenCtx) {
     for d in 0..ndocs {
         let cfg = root1_first_cfg(ctx);
         let ns0 = cfg[0].0.clone();
+        let mut pairs = cfg.clone();
+        pairs.dedup();
         // (a) Turtle: relative references and absolute IRIs, resolved against the document by the parser
         //     (dot segments are removed there); (b) N-Triples: absolute IRIs reach the loader verbatim
         for nt in [false, true] {
@@ -1040,9 +1058,14 @@ pub fn generate(ctx: &mut GenCtx) {
             let doc_iri = format!("{ns0}{name}");
             let mut links: Vec<String> = if nt {
                 let mut v: Vec<String> = vec![];
-                for t in ["secret.ttl", "secret/s.ttl", "secret/s2", "secret/n.nt", "secret.nt", "secret/j.jsonld", "root2/a.ttl", "root1/a.ttl", "root1/sub/e.ttl", "root1/c.jsonld"] {
-                    for (ns, dir) in &cfg {
-                        v.extend(shapes(ns, dir, t).into_iter().map(|x| x.1));
+                // every shape at one secret from the first pair; a sample of the rest
+                for (ti, t) in ["secret.ttl", "secret/s.ttl", "secret/s2", "secret.nt", "secret/j.jsonld", "root2/a.ttl", "root1/a.ttl", "root1/sub/e.ttl"].iter().enumerate() {
+                    for (pi, (ns, dir)) in pairs.iter().enumerate() {
+                        for x in shapes(ns, dir, t) {
+                            if (ti == d % 5 && pi == 0) || ctx.rng.chance(1, 8) {
+                                v.push(x.1);
+                            }
+                        }
                     }
                 }
                 v.push("http://elsewhere.example/x".into());
@@ -1082,7 +1105,7 @@ pub fn generate(ctx: &mut GenCtx) {
                     "urn:x:/a.ttl".into(),
                 ]
             };
-            let wanted = if nt { links.len() + 24 } else { 64 };
+            let wanted = if nt { links.len() + 24 } else { 48 };
             let mut tries = 0;
             while links.len() < wanted && tries < 10000 {
                 tries += 1;
@@ -1098,33 +1121,36 @@ pub fn generate(ctx: &mut GenCtx) {
                 turtle_safe(l) && l.len() < 400 && if nt { Iri::new(probe).is_ok() } else { sophia_iri::IriRef::new(probe).is_ok() }
             });
             links.dedup();
-            let rel_doc = format!("root1/{name}");
-            let mut content = if nt { format!("<urn:vh:file:{0}> <urn:vh:is> \"{0}\" .\n", hex(&rel_doc)) } else { marker(&rel_doc) };
-            for (k, l) in links.iter().enumerate() {
-                // object of P_LINK, only member of the list under P_LIST, subject of P_REV
-                if nt {
-                    content.push_str(&format!("<{doc_iri}#l{k}> <{P_LINK}> <{l}> .\n"));
-                    content.push_str(&format!("<{doc_iri}#l{k}> <{P_LIST}> _:b{k} .\n"));
-                    content.push_str(&format!("_:b{k} <http://www.w3.org/1999/02/22-rdf-syntax-ns#first> <{l}> .\n"));
-                    content.push_str(&format!("_:b{k} <http://www.w3.org/1999/02/22-rdf-syntax-ns#rest> <http://www.w3.org/1999/02/22-rdf-syntax-ns#nil> .\n"));
-                    content.push_str(&format!("<{l}> <{P_REV}> <{doc_iri}#l{k}> .\n"));
-                } else {
-                    content.push_str(&format!("<#l{k}> <{P_LINK}> <{l}> ; <{P_LIST}> ( <{l}> ) .\n<{l}> <{P_REV}> <#l{k}> .\n"));
-                }
-            }
-            let mut with_doc = plain.clone();
-            with_doc.push(('c', rel_doc, Some(content)));
-            let fs_doc = fs_tok(&with_doc);
-            for (k, l) in links.iter().enumerate() {
-                // every link through `get_resource`, and through one of the other entry points in turn
-                for mode in ["one", MODES[1 + (k + d) % 4]] {
-                    ctx.stats.bump(if nt { "l.link_nt" } else { "l.link_ttl" });
-                    ctx.stats.bump(&format!("l.mode_{mode}"));
-                    if l.split(['/', '#']).any(|sg| sg == "..") {
-                        ctx.stats.bump(if nt { "l.nt_dotdot_verbatim" } else { "l.ttl_dotdot_resolved_by_parser" });
+            // small documents (8 links each): every request parses its document again
+            for (chunk_no, chunk) in links.chunks(8).enumerate() {
+                let rel_doc = format!("root1/{name}");
+                let mut content = if nt { format!("<urn:vh:file:{0}> <urn:vh:is> \"{0}\" .\n", hex(&rel_doc)) } else { marker(&rel_doc) };
+                for (k, l) in chunk.iter().enumerate() {
+                    // object of P_LINK, only member of the list under P_LIST, subject of P_REV
+                    if nt {
+                        content.push_str(&format!("<{doc_iri}#l{k}> <{P_LINK}> <{l}> .\n"));
+                        content.push_str(&format!("<{doc_iri}#l{k}> <{P_LIST}> _:b{k} .\n"));
+                        content.push_str(&format!("_:b{k} <http://www.w3.org/1999/02/22-rdf-syntax-ns#first> <{l}> .\n"));
+                        content.push_str(&format!("_:b{k} <http://www.w3.org/1999/02/22-rdf-syntax-ns#rest> <http://www.w3.org/1999/02/22-rdf-syntax-ns#nil> .\n"));
+                        content.push_str(&format!("<{l}> <{P_REV}> <{doc_iri}#l{k}> .\n"));
+                    } else {
+                        content.push_str(&format!("<#l{k}> <{P_LINK}> <{l}> ; <{P_LIST}> ( <{l}> ) .\n<{l}> <{P_REV}> <#l{k}> .\n"));
                     }
-                    let given = if nt { hex(l) } else { "-".to_string() };
-                    ctx.emit(&format!("l {} {} {} {} {} {}", cfg_tok(&cfg), fs_doc, hex(&format!("{doc_iri}#l{k}")), hex(P_LINK), mode, given));
+                }
+                let mut with_doc = plain.clone();
+                with_doc.push(('c', rel_doc, Some(content)));
+                let fs_doc = fs_tok(&with_doc);
+                for (k, l) in chunk.iter().enumerate() {
+                    // every link through `get_resource`, and through one of the other entry points in turn
+                    for mode in ["one", MODES[1 + (k + chunk_no + d) % 4]] {
+                        ctx.stats.bump(if nt { "l.link_nt" } else { "l.link_ttl" });
+                        ctx.stats.bump(&format!("l.mode_{mode}"));
+                        if l.split(['/', '#']).any(|sg| sg == "..") {
+                            ctx.stats.bump(if nt { "l.nt_dotdot_verbatim" } else { "l.ttl_dotdot_resolved_by_parser" });
+                        }
+                        let given = if nt { hex(l) } else { "-".to_string() };
+                        ctx.emit(&format!("l {} {} {} {} {} {}", cfg_tok(&cfg), fs_doc, hex(&format!("{doc_iri}#l{k}")), hex(P_LINK), mode, given));
+                    }
                 }
             }
             if d == 0 {
@@ -1139,9 +1165,15 @@ pub fn generate(ctx: &mut GenCtx) {
         let cfg = root1_first_cfg(ctx);
         let ns0 = cfg[0].0.clone();
         let mut ctxs: Vec<String> = vec![];
-        for t in ["secret/j.jsonld", "secret.jsonld", "root1/c.jsonld", "root1/sub/m.jsonld", "root2/k.jsonld"] {
-            for (ns, dir) in &cfg {
-                ctxs.extend(shapes(ns, dir, t).into_iter().map(|x| x.1));
+        let mut pairs = cfg.clone();
+        pairs.dedup();
+        for (ti, t) in ["secret/j.jsonld", "secret.jsonld", "root1/c.jsonld", "root1/sub/m.jsonld", "root2/k.jsonld"].iter().enumerate() {
+            for (pi, (ns, dir)) in pairs.iter().enumerate() {
+                for x in shapes(ns, dir, t) {
+                    if (ti == d % 2 && pi == 0) || ctx.rng.chance(1, 6) {
+                        ctxs.push(x.1);
+                    }
+                }
             }
         }
         ctxs.extend(
@@ -1151,29 +1183,31 @@ pub fn generate(ctx: &mut GenCtx) {
         );
         ctxs.retain(|l| !l.contains(['"', '\\']) && !l.chars().any(|c| c < ' '));
         ctxs.dedup();
-        let mut entries = plain.clone();
-        let mut reqs: Vec<String> = vec![];
-        for (k, c) in ctxs.iter().enumerate() {
-            let rel_doc = format!("root1/jdoc{k}.jsonld");
-            let h = hex(&rel_doc);
-            // string / array / @import / property-scoped context
-            let (form, body) = match (k + d) % 4 {
-                0 => ("string", format!("{{\"@context\":\"{c}\",\"@id\":\"urn:vh:doc\",\"vhmark\":\"v\",\"urn:vh:is\":\"{h}\"}}")),
-                1 => ("array", format!("{{\"@context\":[{{\"x\":\"urn:vh:x\"}},\"{c}\"],\"@id\":\"urn:vh:doc\",\"vhmark\":\"v\",\"urn:vh:is\":\"{h}\"}}")),
-                2 => ("import", format!("{{\"@context\":{{\"@version\":1.1,\"@import\":\"{c}\"}},\"@id\":\"urn:vh:doc\",\"vhmark\":\"v\",\"urn:vh:is\":\"{h}\"}}")),
-                _ => ("scoped", format!("{{\"@context\":{{\"t\":{{\"@id\":\"urn:vh:t\",\"@context\":\"{c}\"}}}},\"@id\":\"urn:vh:doc\",\"urn:vh:is\":\"{h}\",\"t\":{{\"@id\":\"urn:vh:inner\",\"vhmark\":\"v\"}}}}")),
-            };
-            ctx.stats.bump(&format!("j.form_{form}"));
-            if c.split('/').any(|sg| sg == "..") {
-                ctx.stats.bump("j.ctx_dotdot");
+        for (chunk_no, chunk) in ctxs.chunks(16).enumerate() {
+            let mut entries = plain.clone();
+            let mut reqs: Vec<String> = vec![];
+            for (k, c) in chunk.iter().enumerate() {
+                let rel_doc = format!("root1/jdoc{k}.jsonld");
+                let h = hex(&rel_doc);
+                // string / array / @import / property-scoped context
+                let (form, body) = match (k + chunk_no + d) % 4 {
+                    0 => ("string", format!("{{\"@context\":\"{c}\",\"@id\":\"urn:vh:doc\",\"vhmark\":\"v\",\"urn:vh:is\":\"{h}\"}}")),
+                    1 => ("array", format!("{{\"@context\":[{{\"x\":\"urn:vh:x\"}},\"{c}\"],\"@id\":\"urn:vh:doc\",\"vhmark\":\"v\",\"urn:vh:is\":\"{h}\"}}")),
+                    2 => ("import", format!("{{\"@context\":{{\"@version\":1.1,\"@import\":\"{c}\"}},\"@id\":\"urn:vh:doc\",\"vhmark\":\"v\",\"urn:vh:is\":\"{h}\"}}")),
+                    _ => ("scoped", format!("{{\"@context\":{{\"t\":{{\"@id\":\"urn:vh:t\",\"@context\":\"{c}\"}}}},\"@id\":\"urn:vh:doc\",\"urn:vh:is\":\"{h}\",\"t\":{{\"@id\":\"urn:vh:inner\",\"vhmark\":\"v\"}}}}")),
+                };
+                ctx.stats.bump(&format!("j.form_{form}"));
+                if c.split('/').any(|sg| sg == "..") {
+                    ctx.stats.bump("j.ctx_dotdot");
+                }
+                entries.push(('c', rel_doc, Some(body)));
+                reqs.push(hex(&format!("{ns0}jdoc{k}.jsonld")));
             }
-            entries.push(('c', rel_doc, Some(body)));
-            reqs.push(hex(&format!("{ns0}jdoc{k}.jsonld")));
-        }
-        let fs_j = fs_tok(&entries);
-        for r in reqs {
-            ctx.stats.bump("j.doc");
-            ctx.emit(&format!("j {} {} {}", cfg_tok(&cfg), fs_j, r));
+            let fs_j = fs_tok(&entries);
+            for r in reqs {
+                ctx.stats.bump("j.doc");
+                ctx.emit(&format!("j {} {} {}", cfg_tok(&cfg), fs_j, r));
+            }
         }
         if d == 0 {
             ctx.stats.sample(format!("json-ld docs for {:?}: {} contexts", cfg, ctxs.len()));
@@ -1196,7 +1230,8 @@ pub fn generate(ctx: &mut GenCtx) {
         ("http://ex.org/ns/lnk_out/s.ttl", "out"),
         ("http://ex.org/ns/lnk_out/s2", "out"),
         ("http://ex.org/ns/sub/up/a.ttl", "out"),
-        ("http://ex.org/ns/sub/up/up/secret.ttl", "out"),
+        ("http://ex.org/ns/lnk_out/n", "out"),
+        ("http://ex.org/ns/lnk_out/../secret.ttl", "out"),
         ("http://ex.org/ns/sub/up/sub/up/sub/e.ttl", "out"),
     ] {
         ctx.stats.bump(if kind == "in" { "y.symlink_inside_checked" } else { "y.symlink_outside_reported" });
@@ -1208,7 +1243,8 @@ pub fn generate(ctx: &mut GenCtx) {
 fn root1_first_cfg(ctx: &mut GenCtx) -> Vec<(String, String)> {
     loop {
         let c = random_cfg(ctx);
-        if c.first().map(|(_, dir)| normalise_rel(dir).as_deref() == Some("root1")).unwrap_or(false) {
+        let all_valid = c.iter().all(|(a, b)| PAIRS_OK.iter().any(|(x, y)| x == a && y == b));
+        if all_valid && c.first().map(|(_, dir)| normalise_rel(dir).as_deref() == Some("root1")).unwrap_or(false) {
             return c;
         }
     }
